@@ -87,6 +87,7 @@ def build(repo="/repo", mode="quick", log=None):
     with open(lock_path, "w") as lock:
         fcntl.flock(lock, fcntl.LOCK_EX)
         if os.path.exists(marker):
+            os.utime(out, None)   # recently used: keep it out of _prune_old's reach
             return out
         ensure_driver()
         shutil.rmtree(out, ignore_errors=True)
@@ -123,12 +124,15 @@ def build(repo="/repo", mode="quick", log=None):
         return out
 
 
-def _prune_old(keep=6):
+def _prune_old(keep=12, min_age_s=1800):
+    """Drop old fact bases; never one that was used in the last half hour (a concurrent check may be loading it)."""
     d = os.path.join(CACHE, "facts")
     ents = [os.path.join(d, e) for e in os.listdir(d) if os.path.isdir(os.path.join(d, e))]
     ents.sort(key=os.path.getmtime, reverse=True)
+    now = time.time()
     for e in ents[keep:]:
-        shutil.rmtree(e, ignore_errors=True)
+        if now - os.path.getmtime(e) > min_age_s:
+            shutil.rmtree(e, ignore_errors=True)
 
 
 def load(out):
